@@ -739,6 +739,68 @@ func runC20(c *Ctx) {
 			}
 		}
 	}
+	// ---------- signing an object that already holds a signature ----------
+	// the call fails and keeps the old signature, or it succeeds and holds exactly what the new signer
+	// returned: never a mixture, never an empty slot
+	{
+		old := append([]byte{}, mon.FixedSig...)
+		fresh := []byte("a-new-signature-of-another-length")
+		parent := &cose.Sign1Message{Headers: cose.Headers{Protected: cose.ProtectedHeader{int64(1): alg}}, Payload: []byte("parent"), Signature: mon.FixedSig}
+		hd := func() cose.Headers {
+			return cose.Headers{Protected: cose.ProtectedHeader{int64(1): alg}, Unprotected: cose.UnprotectedHeader{}}
+		}
+		for _, f := range []int{fOK, fErr, fErrBytes, fEmptyNil} {
+			type again struct {
+				name string
+				run  func(sg cose.Signer) (error, []byte)
+			}
+			for _, a := range []again{
+				{"Sign1Message.Sign", func(sg cose.Signer) (error, []byte) {
+					m := &cose.Sign1Message{Headers: hd(), Payload: []byte("p"), Signature: append([]byte{}, old...)}
+					e := m.Sign(gen.Entropy, nil, sg)
+					return e, m.Signature
+				}},
+				{"Signature.Sign", func(sg cose.Signer) (error, []byte) {
+					m := &cose.Signature{Headers: hd(), Signature: append([]byte{}, old...)}
+					e := m.Sign(gen.Entropy, sg, []byte{0x40}, []byte("p"), nil)
+					return e, m.Signature
+				}},
+				{"Countersignature.Sign", func(sg cose.Signer) (error, []byte) {
+					m := &cose.Countersignature{Headers: hd(), Signature: append([]byte{}, old...)}
+					e := m.Sign(gen.Entropy, sg, parent, nil)
+					return e, m.Signature
+				}},
+				{"SignMessage.Sign", func(sg cose.Signer) (error, []byte) {
+					m := &cose.SignMessage{Headers: cose.Headers{Protected: cose.ProtectedHeader{}, Unprotected: cose.UnprotectedHeader{}}, Payload: []byte("p"), Signatures: []*cose.Signature{{Headers: hd(), Signature: append([]byte{}, old...)}}}
+					e := m.Sign(gen.Entropy, nil, sg)
+					return e, m.Signatures[0].Signature
+				}},
+			} {
+				sg := mkSigner(alg, f)
+				if sp, ok := sg.(*mon.SpySigner); ok && f == fOK {
+					sp.Out = fresh
+				}
+				key := "sign-again/" + a.name + "/" + faultNames[f]
+				in := map[string]any{"cell": key}
+				var err error
+				var stored []byte
+				if guard(rec, a.name, in, func() { err, stored = a.run(sg) }) {
+					continue
+				}
+				rec.Eval(1)
+				rec.Event("sign-again-cases")
+				rec.Class(fmt.Sprintf("%s/refused=%v", key, err != nil))
+				switch {
+				case err != nil && !eqBytes(stored, old):
+					rec.Violate("signature-stored-on-error", key, fmt.Sprintf("signing again failed (%v) but the stored signature changed to %s", err, hexs(stored)), in)
+				case err == nil && f == fOK && !eqBytes(stored, fresh):
+					rec.Violate("signature-stored-on-error", key, "signing again succeeded but the slot does not hold the new signer's bytes: "+hexs(stored), in)
+				case err == nil && f != fOK && !eqBytes(stored, old):
+					rec.Violate("error-lost", key, fmt.Sprintf("the signer failed or returned nothing, the call returned nil and the slot now holds %s", hexs(stored)), in)
+				}
+			}
+		}
+	}
 	rec.Require("opaque-signer-cases", 100)
 	rec.Require("entropy-fault-surfaced", 50)
 	rec.Require("entropy-reader-consulted", 100)
